@@ -179,6 +179,10 @@ def format_context(format_str):
             within_field = True
 
             ind += 1
+            if ind == len(format_str):
+                raise LenaValueError(
+                    "unclosed replacement field in '{}'".format(format_str)
+                )
             c = format_str[ind]
         if within_field:
             new_arg = []
@@ -190,6 +194,10 @@ def format_context(format_str):
                     break
                 new_arg.append(c)
                 ind += 1
+                if ind == len(format_str):
+                    raise LenaValueError(
+                        "unclosed replacement field in '{}'".format(format_str)
+                    )
                 c = format_str[ind]
     format_str = ''.join(new_str)
     args = new_args
